@@ -14,13 +14,13 @@ Init == cl = Empty /\ ev = Empty /\ bad = <<>> /\ ops = 0
 Kinds == {"schema", "topology", "status"}
 Op(A) == ops < MaxOps /\ ops' = ops + 1 /\ A
 Next ==
-    \/ \E c \in Clients \ DOMAIN cl : Op(E!DoHello(c))
+    \/ \E c \in Clients \ DOMAIN cl : \E v \in (IF c = 1 THEN {3, 4} ELSE {4}) : Op(E!DoHello(c, v))
     \/ \E c \in DOMAIN cl : cl[c].up /\ \E s \in BOOLEAN : Op(E!DoRegister(c, s))
     \/ \E c \in DOMAIN cl : cl[c].up /\ cl[c].reg = "sent" /\ Op(E!DoRegisterAck(c))
     \/ \E c \in DOMAIN cl : cl[c].up /\ Op(E!DoClose(c))
-    \/ Cardinality(DOMAIN ev) < MaxEvents /\ \E k \in Kinds : Op(E!DoEmit(Cardinality(DOMAIN ev) + 1, k, Cardinality(DOMAIN ev) + 1))
+    \/ Cardinality(DOMAIN ev) < MaxEvents /\ \E k \in Kinds : \E v4 \in (IF k = "schema" THEN BOOLEAN ELSE {FALSE}) : Op(E!DoEmit(Cardinality(DOMAIN ev) + 1, k, Cardinality(DOMAIN ev) + 1, v4))
     \* the proxy delivers an open schema event to a client that must or may get it, once
-    \/ \E e \in E!OpenEvents : \E c \in ev[e].may \ ev[e].got : cl[c].up /\ E!DoRecv(c, e, 0 - 1, TRUE) /\ UNCHANGED ops
+    \/ \E e \in E!OpenEvents : \E c \in ev[e].may \ ev[e].got : cl[c].up /\ E!DoRecv(c, e, 0 - 1, TRUE, cl[c].ver) /\ UNCHANGED ops
     \* quiescence is only declared when the proxy has delivered everything it must
     \/ /\ \A e \in E!OpenEvents : \A c \in ev[e].must : c \in ev[e].got \/ ~cl[c].up
        /\ E!OpenEvents # {} /\ E!DoQuiet /\ UNCHANGED ops
